@@ -9,6 +9,7 @@ import numpy as np
 from .. import gen1
 from ..core import rs
 from . import c04_prefilled as pre
+from . import c04_refused as ref
 from .base1 import Hist1Prop
 
 WIDTHS = [1.0, 10.0, 0.5, 0.25, 0.1, 0.3, 0.7, 1 / 3, 2.5, 1e-3, 1e3, 0.05]
@@ -236,7 +237,7 @@ def narrow_exhaustive(tier):
 
 class C04(Hist1Prop):
     ID = "C04"
-    N_QUICK = 350        # stream:prefilled takes every fifth case, stream:nd_narrow every eighth; the older streams keep about 250 cases
+    N_QUICK = 385        # stream:prefilled takes every fifth case, stream:nd_narrow every eighth, stream:refused every tenth; the older streams keep about 250 cases
     N_THOROUGH = 10000
     RULE = ("histories of fill / fill_n (empty batches, NaNs, weights) on adaptive fixed-width 1-D histograms started empty "
             "(bin_shift / align options) or pre-filled; widths {1,10,.5,.25,.1,.3,.7,1/3,2.5,1e-3,1e3,.05}; values = decimal "
@@ -253,6 +254,13 @@ class C04(Hist1Prop):
             "point, decimal literals and their one-ulp neighbours; values = the minimum, its neighbours, the multiple of the "
             "width beside it, the last edge, far values; the first edge must be the minimum asked for, earlier edges stay edges "
             "bit for bit, each cell holds its starting content plus what was entered inside its intervals, no spare bin. "
+            "stream:refused (one case in ten, and an enumerated sub-space; c04_refused.py): 1-D / 2-D / 3-D adaptive histograms with "
+            "contents, then calls the library refuses (fill_n with weights of another length / shape / bool / str type, NaN with "
+            "dropna=False, a non-finite value, fill with weight 1e200, fill(inf), a point / rows with a coordinate too many, += of "
+            "a histogram with other bins) whose values lie left / right / on both sides of the bins or inside, followed by accepted "
+            "fills (inside, growing either side) and reads: after every step the arrays have the shape of the bins, the bins are "
+            "consecutive cells of the grid, each cell holds exactly what ACCEPTED calls entered inside its intervals, no valid "
+            "call is refused; bins grown (with zeros) by the refused call are tolerated. "
             "non-trivial = the bins grew at least twice; distinct = hash of the op list")
     FIELDS = {"bins", "freq", "err2", "under", "over", "total", "keep", "binning"}
     EXTRA_TRUST = ["grid edges and cell estimates are floating-point computations: the theorems hold for every FloatOps "
@@ -265,6 +273,8 @@ class C04(Hist1Prop):
         if ENABLE_ND_NARROW and k % 8 == 7:
             # one case in eight (chosen by the case number, so that the older streams keep the cases they had)
             return narrow_case(narrow_params(rng))
+        if ref.ENABLE_REFUSED and k % ref.REF_EVERY == ref.REF_EVERY - 2:
+            return ref.gen(rng)
         if rng.random() < 0.3:
             from . import nd_parts
             return nd_parts.c04_gen(rng)
@@ -352,11 +362,15 @@ class C04(Hist1Prop):
     def run_impl(self, case):
         if pre.is_pre(case):
             return pre.run_impl(case)
+        if ref.is_ref(case):
+            return ref.run_impl(case)
         return super().run_impl(case)
 
     def model_case(self, case, io):
         if pre.is_pre(case):
             return pre.model_case(case)
+        if ref.is_ref(case):
+            return ref.model_case(case)
         if case.get("kind") == "histn" and case["src"].get("klass") not in (None, "HistogramND"):
             return None         # the driver has no transformed classes in its op language: oracle only
         return case
@@ -368,11 +382,14 @@ class C04(Hist1Prop):
 
     def exhaustive_cases(self, tier):
         """stream:prefilled, enumerated (every minimum k*w of a window) and stream:nd_narrow, enumerated"""
-        return (pre.small_scope(tier) if pre.ENABLE_PREFILLED else []) + (list(narrow_exhaustive(tier)) if ENABLE_ND_NARROW else [])
+        return ((pre.small_scope(tier) if pre.ENABLE_PREFILLED else []) + (list(narrow_exhaustive(tier)) if ENABLE_ND_NARROW else [])
+                + (ref.exhaustive(tier) if ref.ENABLE_REFUSED else []))
 
     def neighbours(self, case):
         if pre.is_pre(case):
             return list(pre.neighbours(case))
+        if ref.is_ref(case):
+            return list(ref.neighbours(case))
         if case.get("kind") == "histn" and case["src"].get("narrow"):
             return narrow_neighbours(case["src"]["narrow"])
         return []
@@ -381,6 +398,9 @@ class C04(Hist1Prop):
     def shrink_candidates(self, case):
         if pre.is_pre(case):
             yield from pre.shrink(case)
+            return
+        if ref.is_ref(case):
+            yield from ref.shrink(case)
             return
         if case.get("kind") == "histn":
             from . import nd_parts
@@ -403,6 +423,8 @@ class C04(Hist1Prop):
     def oracle(self, case, io):
         if pre.is_pre(case):
             return pre.oracle(case, io)
+        if ref.is_ref(case):
+            return ref.oracle(case, io)
         if case.get("kind") == "histn":
             from . import nd_parts
             return nd_parts.c04_oracle(case, io)
@@ -474,6 +496,8 @@ class C04(Hist1Prop):
     def nontrivial(self, case, io):
         if pre.is_pre(case):
             return pre.nontrivial(case, io)
+        if ref.is_ref(case):
+            return ref.nontrivial(case, io)
         if case.get("kind") == "histn":
             return len({tuple(o["regs"][0]["shape"]) for o in io["outs"] if o["regs"] and o["regs"][0]}) >= 3
         sizes = {len(o["regs"][0]["bins"]) for o in io["outs"] if o["regs"] and o["regs"][0]}
